@@ -120,7 +120,6 @@ fn step_split_bwd<'a, 'p, S: Src, P: Pattern<'p>>(s: &mut S, p: Parser<'a>, d: P
 harness! {
     /// kind=bounded tier=quick bound="valid UTF-8 remainder<=4 bytes, &str pattern<=2 bytes (empty included); Parser::new or with_start_offset(<=1000)"
     #[kani::unwind(8)]
-    #[kani::stub(konst_kernel::string::non_char_boundary_panic, crate::hlib::stub_non_char_boundary_panic)]
     fn c14_strip_str(s) {
         let hs = BStr::<4>::any(s);
         let ps = BStr::<2>::any(s);
@@ -136,7 +135,6 @@ harness! {
 harness! {
     /// kind=bounded tier=quick bound="valid UTF-8 remainder<=4 bytes, char pattern (any char); Parser::new or with_start_offset(<=1000)"
     #[kani::unwind(8)]
-    #[kani::stub(konst_kernel::string::non_char_boundary_panic, crate::hlib::stub_non_char_boundary_panic)]
     fn c14_strip_char(s) {
         let hs = BStr::<4>::any(s);
         let c = s.char();
@@ -153,7 +151,6 @@ macro_rules! c14_trim_matches_str {
         harness! {
             /// kind=bounded tier=quick bound="valid UTF-8 remainder<=4 bytes; &str pattern<=2 bytes (empty included); Parser::new or with_start_offset(<=1000)"
             #[kani::unwind(8)]
-            #[kani::stub(konst_kernel::string::non_char_boundary_panic, crate::hlib::stub_non_char_boundary_panic)]
             fn $name(s) {
                 let hs = BStr::<4>::any(s);
                 let h = hs.as_str();
@@ -176,7 +173,6 @@ macro_rules! c14_trim_matches_char {
         harness! {
             /// kind=bounded tier=quick bound="valid UTF-8 remainder<=4 bytes; char pattern (any char); Parser::new or with_start_offset(<=1000)"
             #[kani::unwind(8)]
-            #[kani::stub(konst_kernel::string::non_char_boundary_panic, crate::hlib::stub_non_char_boundary_panic)]
             fn $name(s) {
                 let hs = BStr::<4>::any(s);
                 let h = hs.as_str();
@@ -195,7 +191,6 @@ c14_trim_matches_char! {c14_trim_end_matches_char, trim_end_matches, "C14.trim_e
 harness! {
     /// kind=bounded tier=quick bound="valid UTF-8 remainder<=3 bytes; two-sided trim_matches with a &str pattern<=2 bytes (empty included); thorough twin: <=4 bytes"
     #[kani::unwind(7)]
-    #[kani::stub(konst_kernel::string::non_char_boundary_panic, crate::hlib::stub_non_char_boundary_panic)]
     fn c14_trim_matches_both_ends_str(s) {
         let hs = BStr::<3>::any(s);
         let h = hs.as_str();
@@ -211,7 +206,6 @@ harness! {
 harness! {
     /// kind=bounded tier=quick bound="valid UTF-8 remainder<=3 bytes; two-sided trim_matches with a char pattern (any char); thorough twin: <=4 bytes"
     #[kani::unwind(7)]
-    #[kani::stub(konst_kernel::string::non_char_boundary_panic, crate::hlib::stub_non_char_boundary_panic)]
     fn c14_trim_matches_both_ends_char(s) {
         let hs = BStr::<3>::any(s);
         let h = hs.as_str();
@@ -225,7 +219,6 @@ harness! {
 harness! {
     /// kind=bounded tier=thorough bound="valid UTF-8 remainder<=4 bytes; two-sided trim_matches with a &str pattern<=2 bytes (empty included)"
     #[kani::unwind(8)]
-    #[kani::stub(konst_kernel::string::non_char_boundary_panic, crate::hlib::stub_non_char_boundary_panic)]
     fn c14_trim_matches_both_ends_str_big(s) {
         let hs = BStr::<4>::any(s);
         let h = hs.as_str();
@@ -241,7 +234,6 @@ harness! {
 harness! {
     /// kind=bounded tier=thorough bound="valid UTF-8 remainder<=4 bytes; two-sided trim_matches with a char pattern (any char)"
     #[kani::unwind(8)]
-    #[kani::stub(konst_kernel::string::non_char_boundary_panic, crate::hlib::stub_non_char_boundary_panic)]
     fn c14_trim_matches_both_ends_char_big(s) {
         let hs = BStr::<4>::any(s);
         let h = hs.as_str();
@@ -255,7 +247,6 @@ harness! {
 harness! {
     /// kind=bounded tier=quick bound="valid UTF-8 remainder<=4 bytes, &str needle<=2 bytes (empty included); Parser::new or with_start_offset(<=1000)"
     #[kani::unwind(8)]
-    #[kani::stub(konst_kernel::string::non_char_boundary_panic, crate::hlib::stub_non_char_boundary_panic)]
     fn c14_find_skip_str(s) {
         let hs = BStr::<4>::any(s);
         let ps = BStr::<2>::any(s);
@@ -270,7 +261,6 @@ harness! {
 harness! {
     /// kind=bounded tier=quick bound="valid UTF-8 remainder<=4 bytes, char needle (any char); Parser::new or with_start_offset(<=1000)"
     #[kani::unwind(12)]
-    #[kani::stub(konst_kernel::string::non_char_boundary_panic, crate::hlib::stub_non_char_boundary_panic)]
     fn c14_find_skip_char(s) {
         let hs = BStr::<4>::any(s);
         let c = s.char();
@@ -284,7 +274,6 @@ harness! {
 harness! {
     /// kind=bounded tier=quick bound="valid UTF-8 remainder<=4 bytes, &str delimiter<=2 bytes (empty included for split/split_keep); flag clear; Parser::new or with_start_offset(<=1000)"
     #[kani::unwind(8)]
-    #[kani::stub(konst_kernel::string::non_char_boundary_panic, crate::hlib::stub_non_char_boundary_panic)]
     fn c14_split_once_fwd_str(s) {
         let hs = BStr::<4>::any(s);
         let ds = BStr::<2>::any(s);
@@ -301,7 +290,6 @@ harness! {
 harness! {
     /// kind=bounded tier=quick bound="valid UTF-8 remainder<=4 bytes, non-empty &str delimiter<=2 bytes; flag clear; Parser::new or with_start_offset(<=1000)"
     #[kani::unwind(8)]
-    #[kani::stub(konst_kernel::string::non_char_boundary_panic, crate::hlib::stub_non_char_boundary_panic)]
     fn c14_split_once_bwd_str(s) {
         let hs = BStr::<4>::any(s);
         let ds = BStr::<2>::any(s);
@@ -317,7 +305,6 @@ harness! {
 harness! {
     /// kind=bounded tier=quick bound="valid UTF-8 remainder<=4 bytes, char delimiter (any char); split, split_keep, split_terminator; flag clear; Parser::new or with_start_offset(<=1000)"
     #[kani::unwind(12)]
-    #[kani::stub(konst_kernel::string::non_char_boundary_panic, crate::hlib::stub_non_char_boundary_panic)]
     fn c14_split_once_fwd_char(s) {
         let hs = BStr::<4>::any(s);
         let c = s.char();
@@ -332,7 +319,6 @@ harness! {
 harness! {
     /// kind=bounded tier=quick bound="valid UTF-8 remainder<=4 bytes, char delimiter (any char); rsplit, rsplit_terminator; flag clear; Parser::new or with_start_offset(<=1000)"
     #[kani::unwind(12)]
-    #[kani::stub(konst_kernel::string::non_char_boundary_panic, crate::hlib::stub_non_char_boundary_panic)]
     fn c14_split_once_bwd_char(s) {
         let hs = BStr::<4>::any(s);
         let c = s.char();
@@ -368,7 +354,6 @@ fn ref_skip_back_to(b: &[u8], n: usize) -> usize {
 harness! {
     /// kind=bounded tier=quick bound="valid UTF-8 remainder<=5 bytes; skip/skip_back counts over all of usize; Parser::new or with_start_offset(<=1000)"
     #[kani::unwind(8)]
-    #[kani::stub(konst_kernel::string::non_char_boundary_panic, crate::hlib::stub_non_char_boundary_panic)]
     fn c14_trim_ws_skip(s) {
         let hs = BStr::<5>::any(s);
         let h = hs.as_str();
@@ -414,7 +399,6 @@ fn ref_int_prefix(b: &[u8], signed: bool) -> Option<(bool, u32, usize)> {
 harness! {
     /// kind=bounded tier=quick bound="valid UTF-8 remainder<=5 bytes (so -128x, 2559, 00000 are inside); parse_u8, parse_i8"
     #[kani::unwind(8)]
-    #[kani::stub(konst_kernel::string::non_char_boundary_panic, crate::hlib::stub_non_char_boundary_panic)]
     fn c14_parse_int_prefix(s) {
         let hs = BStr::<5>::any(s);
         let h = hs.as_str();
@@ -442,7 +426,6 @@ harness! {
 harness! {
     /// kind=bounded tier=quick bound="valid UTF-8 remainder<=6 bytes; parse_bool"
     #[kani::unwind(9)]
-    #[kani::stub(konst_kernel::string::non_char_boundary_panic, crate::hlib::stub_non_char_boundary_panic)]
     fn c14_parse_bool_prefix(s) {
         let hs = BStr::<6>::any(s);
         let h = hs.as_str();
@@ -469,7 +452,6 @@ macro_rules! c14_after_last {
         harness! {
             /// kind=bounded tier=quick bound="valid UTF-8 string<=4 bytes, char delimiter absent from it: the operation returns the whole remainder, then every split operation once on the exhausted parser"
             #[kani::unwind(12)]
-            #[kani::stub(konst_kernel::string::non_char_boundary_panic, crate::hlib::stub_non_char_boundary_panic)]
             fn $name(s) {
                 let hs = BStr::<4>::any(s);
                 let c = s.char();
@@ -502,7 +484,6 @@ c14_after_last! {c14_after_last_piece_split_keep, split_keep}
 harness! {
     /// kind=bounded tier=quick bound="valid UTF-8 string<=3 bytes without the delimiter ','; exhausted by split, then strip/trim/find_skip/skip/parse operations with a &str<=2 byte argument act on the empty remainder"
     #[kani::unwind(8)]
-    #[kani::stub(konst_kernel::string::non_char_boundary_panic, crate::hlib::stub_non_char_boundary_panic)]
     fn c14_exhausted_other_ops(s) {
         let hs = BStr::<3>::any(s);
         let h = hs.as_str();
@@ -545,7 +526,6 @@ macro_rules! c14_history {
         harness! {
             /// kind=bounded tier=quick bound="valid UTF-8 string<=4 bytes containing the char delimiter (any char): one earlier split (rsplit), then split/split_keep/split_terminator (front ops) or rsplit/rsplit_terminator (back ops) once each with the same char"
             #[kani::unwind(12)]
-            #[kani::stub(konst_kernel::string::non_char_boundary_panic, crate::hlib::stub_non_char_boundary_panic)]
             fn $name(s) {
                 let hs = BStr::<4>::any(s);
                 let c = s.char();
@@ -735,7 +715,6 @@ macro_rules! c14_protocol_str {
         harness! {
             /// kind=bounded tier=quick bound="valid UTF-8 string<=4 bytes, non-empty &str delimiter<=2 bytes, the operation repeated until it fails (<=5 pieces)"
             #[kani::unwind(8)]
-            #[kani::stub(konst_kernel::string::non_char_boundary_panic, crate::hlib::stub_non_char_boundary_panic)]
             fn $name(s) {
                 let hs = BStr::<4>::any(s);
                 let ds = BStr::<2>::any(s);
@@ -761,7 +740,6 @@ macro_rules! c14_protocol_char {
         harness! {
             /// kind=bounded tier=quick bound="valid UTF-8 string<=4 bytes, char delimiter (any char), the operation repeated until it fails (<=5 pieces)"
             #[kani::unwind(12)]
-            #[kani::stub(konst_kernel::string::non_char_boundary_panic, crate::hlib::stub_non_char_boundary_panic)]
             fn $name(s) {
                 let hs = BStr::<4>::any(s);
                 let c = s.char();
@@ -784,7 +762,6 @@ macro_rules! c14_protocol_big {
         harness! {
             /// kind=bounded tier=thorough bound="valid UTF-8 string<=5 bytes, non-empty &str delimiter<=3 bytes, the operation repeated until it fails (<=6 pieces)"
             #[kani::unwind(13)]
-            #[kani::stub(konst_kernel::string::non_char_boundary_panic, crate::hlib::stub_non_char_boundary_panic)]
             fn $name(s) {
                 let hs = BStr::<5>::any(s);
                 let ds = BStr::<3>::any(s);
